@@ -6,9 +6,12 @@
          m | m x [ rep  pos(3Q)  A(k x 3Q)  c(3Q) ]
      6 : si | x(3Q) tol(Q) | k | B(k x 6Q) | Uin(6Q) | par(k Q) | Uij(6Q) | iso | P(k x 6Q) | nC | C(nC x 36Q) |
          m | m x [ rep  eqU(6Q)  cols(k x 6Q) ]
+     7, 8 : si (ignored) | site eps(Q) | n | eqxyz(n x 3Q) | pos(3Q)   position_formula_query (7) / u_formula_query (8):
+         answer [i] for Some i, [-9] for the empty dictionary
    Answer: list of the numbers of the clauses that failed ([] = accepted); [-1] undecodable, [-2] no such setting. *)
 From Coq Require Import ZArith QArith List Bool.
 From DS Require Import Base.ZMat Base.SGDefs Model.C05_QBase Model.C05_PosCert Model.C06_UCert Gen.SGTables.
+From DS Require Import Model.C06_Query Gen.C06_QueryGuards Model.C06_QueryMethods.
 Import ListNotations.
 Open Scope Z_scope.
 
@@ -82,6 +85,15 @@ Definition c0506_run (l : tk) : list Z :=
           else if kind =? 6 then
             match rdUcert rest with
             | Some (c, []) => u_cert_failed G c
+            | _ => [-1]
+            end
+          else if (kind =? 7) || (kind =? 8) then
+            match bind rdQ (fun e => bind rdN (fun n => bind (rep rdQ3 n) (fun sites => bind rdQ3 (fun q => ret (e, sites, q))))) rest with
+            | Some ((e, sites, q), []) =>
+                match (if kind =? 7 then position_formula_query e sites q else u_formula_query e sites q) with
+                | Some i => [Z.of_nat i]
+                | None => [-9]
+                end
             | _ => [-1]
             end
           else [-1]
